@@ -398,7 +398,8 @@ fn execute_n<const N: usize>(plan: &CrashPlan, ctx: &mut Ctx<'_>) {
             })
             .map(|(out, b4, after)| {
                 returned = Some((out, after));
-                b4 == after
+                // (address, length, capacity); a container without an allocation has no address to keep
+                b4.1 == after.1 && b4.2 == after.2 && (b4.2 == 0 || b4.0 == after.0)
             })
         }
         CrashEntry::SliceFromColorMut | CrashEntry::SliceFromColorUnclampedMut | CrashEntry::SingleFromColorMut => {
@@ -409,14 +410,14 @@ fn execute_n<const N: usize>(plan: &CrashPlan, ctx: &mut Ctx<'_>) {
                 match entry {
                     CrashEntry::SliceFromColorMut => {
                         let g = <[ProbeB<Tracked, N>]>::from_color_mut(&mut buf[..]);
-                        let same = g.as_ptr() as usize == before.0 && g.len() == before.1;
+                        let same = g.len() == before.1 && (g.len() == 0 || g.as_ptr() as usize == before.0);
                         // leave the converted state behind; restoring is GuardDrop's business
                         core::mem::forget(g);
                         same
                     }
                     CrashEntry::SliceFromColorUnclampedMut => {
                         let g = <[ProbeB<Tracked, N>]>::from_color_unclamped_mut(&mut buf[..]);
-                        let same = g.as_ptr() as usize == before.0 && g.len() == before.1;
+                        let same = g.len() == before.1 && (g.len() == 0 || g.as_ptr() as usize == before.0);
                         core::mem::forget(g);
                         same
                     }
@@ -447,7 +448,7 @@ fn execute_n<const N: usize>(plan: &CrashPlan, ctx: &mut Ctx<'_>) {
                         let g = <[ProbeB<Tracked, N>]>::from_color_mut(&mut buf[..]);
                         arm(k);
                         let r: &mut [ProbeA<Tracked, N>] = g.restore();
-                        r.as_ptr() as usize == before.0 && r.len() == before.1
+                        r.len() == before.1 && (r.len() == 0 || r.as_ptr() as usize == before.0)
                     }
                     CrashEntry::UnclampedGuardDrop => {
                         let g = <[ProbeB<Tracked, N>]>::from_color_unclamped_mut(&mut buf[..]);
@@ -460,7 +461,7 @@ fn execute_n<const N: usize>(plan: &CrashPlan, ctx: &mut Ctx<'_>) {
                         arm(k);
                         // ProbeA<Tracked, N> -> ProbeB<Tracked, N> -> ProbeA<Tracked, N> again, in place, without an extra restoring hop
                         let g2 = g.then_into_color_mut::<[ProbeA<Tracked, N>]>();
-                        let same = g2.as_ptr() as usize == before.0 && g2.len() == before.1;
+                        let same = g2.len() == before.1 && (g2.len() == 0 || g2.as_ptr() as usize == before.0);
                         arm(None);
                         drop(g2);
                         same
